@@ -83,6 +83,25 @@ func verifGitIsCommon(key string) bool {
 	return verifrt.Or(c, verifrt.Or(info, verifrt.Or(logs, refs)))
 }
 
+// verifBaseHasPrefix: the last component of key starts with pre.
+func verifBaseHasPrefix(key, pre string) bool {
+	res := false
+	for i := 0; i+len(pre) <= len(key); i++ {
+		c := true
+		if i > 0 {
+			c = key[i-1] == '/'
+		}
+		for k := 0; k < len(pre); k++ {
+			c = verifrt.And(c, key[i+k] == pre[k])
+		}
+		for j := i + len(pre); j < len(key); j++ {
+			c = verifrt.And(c, key[j] != '/')
+		}
+		res = verifrt.Or(res, c)
+	}
+	return res
+}
+
 func verifHasLockSuffix(p string) bool {
 	n := len(p)
 	if n < 5 {
@@ -102,7 +121,9 @@ func verifBelowFileEntry(key string) bool {
 }
 
 func verifDual() (*RepositoryFilesystem, *veriffs.FS, *veriffs.FS) {
-	common := veriffs.New()
+	base := veriffs.New()
+	cb, _ := base.Chroot("/repo/.git")
+	common := cb.(*veriffs.FS)
 	wtb, _ := common.Chroot("worktrees/wt")
 	wt := wtb.(*veriffs.FS)
 	return NewRepositoryFilesystem(wt, common), wt, common
@@ -128,6 +149,15 @@ func verifC33Compare(path string) {
 	}
 	verifrt.Assume(!verifBelowFileEntry(key))
 	want := verifGitIsCommon(key)
+	// go-git's own temporary files for a new packed-refs (base name
+	// "._packed-refs*", in the git dir or in the ".tmp" directory billy's
+	// util.TempFile uses for dir == ""; its counterpart of git's
+	// packed-refs.lock/.new) must live in the same directory tree as
+	// packed-refs, i.e. in the common directory, or the final rename cannot
+	// put the new file in place.
+	tmpPacked := verifBaseHasPrefix(key, tmpPackedRefsPrefix)
+	want = verifrt.Or(want, tmpPacked)
+	verifrt.Known("C33-packed-refs-rename-misrouted", tmpPacked)
 
 	// Known divergences (each an exact class; see NOTES.md / known_local.json)
 	verifrt.Known("C33-per-worktree-refs-shared",
@@ -167,7 +197,10 @@ var verifC33Vocab = []string{
 	// per-worktree files and other names
 	"HEAD", "ORIG_HEAD", "FETCH_HEAD", "MERGE_HEAD", "index", "config.worktree", "modules",
 	"refs/heads", "refs/tags", "refs/remotes", "logs/refs", "logs/refs/heads", "objects/pack",
-	"._packed-refs",
+	"._packed-refs", ".tmp/._packed-refs", ".tmp",
+	// directory prefixes, so that one symbolic byte already names a child
+	"refs/", "refs/bisect/", "refs/rewritten/", "refs/worktree/", "refs/heads/", "logs/", "logs/refs/",
+	"logs/refs/bisect/", "logs/refs/worktree/", "info/", "info/sparse-checkout/", "objects/", "worktrees/",
 }
 
 // A2: a vocabulary word, then up to N symbolic bytes, then optionally ".lock".
@@ -179,4 +212,37 @@ func VerifHarness_C33_map_vocab() {
 		p += ".lock"
 	}
 	verifC33Compare(p)
+}
+
+// A3: the temp-file + rename idiom of go-git's own writers. The file must
+// end up (only) in the directory to which git assigns the target; all three
+// targets are shared.
+func VerifHarness_C33_rename() {
+	r, wt, common := verifDual()
+	var dir, prefix, target string
+	site := verifrt.Range(0, 2)
+	switch site {
+	case 0: // DotGit.PackRefs / rewritePackedRefsWithoutRef
+		dir, prefix, target = "", tmpPackedRefsPrefix, packedRefsPath
+	case 1: // PackWriter
+		dir, prefix, target = r.Join(objectsPath, packPath), "tmp_pack_", r.Join(objectsPath, packPath, "pack-0123.pack")
+	default: // ObjectWriter
+		dir, prefix, target = r.Join(objectsPath, packPath), "tmp_obj_", r.Join(objectsPath, "ab", "cdef")
+	}
+	content := verifrt.NondetBytes(verifrt.Range(0, verifrt.Param("N")))
+	tmp, err := r.TempFile(dir, prefix)
+	verifrt.Assert(err == nil, "c33-rename-tempfile")
+	_, err = tmp.Write(content)
+	verifrt.Assert(err == nil, "c33-rename-write")
+	_ = tmp.Close()
+	err = r.Rename(tmp.Name(), target)
+
+	verifrt.Known("C33-packed-refs-rename-misrouted", site == 0)
+	verifrt.Reach("c33-rename-done")
+	verifrt.Assert(err == nil, "c33-rename-consistent")
+	verifrt.Assert(verifGitIsCommon(target), "c33-rename-target-shared")
+	verifrt.Assert(common.Has(target), "c33-rename-consistent")
+	verifrt.Assert(!wt.Has(target), "c33-rename-consistent")
+	verifrt.Assert(verifrt.BytesEq(common.Content(target), content), "c33-rename-consistent")
+	verifrt.Assert(!common.Has(tmp.Name()) && !wt.Has(tmp.Name()), "c33-rename-consistent")
 }
